@@ -68,6 +68,11 @@ def rich_structs():
         {"k": "struct", "name": "DLm", "fields": [F(1, "default", T("map", T("string"), T("Dflt")), "m")]},
         {"k": "struct", "name": "DLd", "fields": [F(1, "default", T("Dflt"), "d"), F(2, "optional", T("Dflt"), "o")]},
         {"k": "struct", "name": "DLs", "fields": [F(1, "default", T("set", T("Dflt")), "s")]},
+        # a struct-like without fields: the degenerate shape of every per-field loop (nil vs. set is its only content)
+        {"k": "struct", "name": "Unit", "fields": []},
+        {"k": "struct", "name": "UnitH", "fields": [
+            F(1, "optional", T("Unit"), "o"), F(2, "default", T("list", T("Unit")), "l"), F(3, "default", T("Unit"), "d"),
+            F(4, "optional", T("map", T("string"), T("Unit")), "m")]},
         {"k": "struct", "name": "Req3", "fields": [
             F(1, "required", T("i32"), "a"), F(2, "required", T("string"), "b"), F(3, "required", T("list", T("i32")), "c")]},
     ]
